@@ -645,3 +645,73 @@ pub proof fn lemma_avg_le_max(total: int, count: int, max: int)
 {
     assert(total / count <= max) by(nonlinear_arith) requires 0 <= total, 0 < count, 0 <= max, total <= count * max;
 }
+
+// ---------------------------------------------------------------- Lemma L1: composition over a whole mailbox history (C01, C02)
+/// what a mailbox carries, in the vocabulary of the effect relations: an envelope (payload id) or the in-band stop marker
+pub enum Item { Env(int), Stop }
+
+/// payload ids of the envelopes before the first stop marker
+pub open spec fn ids_until_stop(s: Seq<Item>) -> Seq<int>
+    decreases s.len()
+{
+    if s.len() == 0 { Seq::empty() } else { match s[0] {
+        Item::Stop => Seq::empty(),
+        Item::Env(id) => seq![id] + ids_until_stop(s.subrange(1, s.len() as int)),
+    } }
+}
+pub open spec fn has_stop(s: Seq<Item>) -> bool { exists|i: int| 0 <= i < s.len() && s[i] is Stop }
+pub open spec fn is_prefix<A>(p: Seq<A>, s: Seq<A>) -> bool { p.len() <= s.len() && p =~= s.subrange(0, p.len() as int) }
+
+/// monitor (lifecycle_post): nothing is taken after a stop marker was taken
+pub open spec fn stop_is_last(taken: Seq<Item>) -> bool {
+    forall|i: int| 0 <= i < taken.len() && taken[i] is Stop ==> i == taken.len() - 1
+}
+
+pub proof fn lemma_prefix_ids(t: Seq<Item>, a: Seq<Item>)
+    requires is_prefix(t, a)
+    ensures is_prefix(ids_until_stop(t), ids_until_stop(a)),
+            has_stop(t) ==> ids_until_stop(t) =~= ids_until_stop(a),
+    decreases t.len()
+{
+    if t.len() == 0 {
+    } else {
+        assert(t[0] == a[0]);
+        match t[0] {
+            Item::Stop => {},
+            Item::Env(id) => {
+                let t1 = t.subrange(1, t.len() as int);
+                let a1 = a.subrange(1, a.len() as int);
+                assert(is_prefix(t1, a1)) by {
+                    assert(t1 =~= a1.subrange(0, t1.len() as int));
+                }
+                lemma_prefix_ids(t1, a1);
+                if has_stop(t) {
+                    let i = choose|i: int| 0 <= i < t.len() && t[i] is Stop;
+                    assert(i >= 1);
+                    assert(t1[i - 1] is Stop);
+                    assert(has_stop(t1));
+                }
+                let x = ids_until_stop(t1); let y = ids_until_stop(a1);
+                assert((seq![id] + x) =~= (seq![id] + y).subrange(0, (seq![id] + x).len() as int));
+            }
+        }
+    }
+}
+
+/// L1 (C01 + C02, composition over a whole history of ONE mailbox).
+/// acc    : items in the order the mailbox accepted them                      (send relations: one queue, Ok iff accepted)
+/// taken  : items in the order the loop took them                            (A1: FIFO, each accepted item taken at most once)
+/// handled: payload ids in the order handlers ran                            (monitor: exactly the taken envelopes, inline, in order)
+pub proof fn lemma_l1(acc: Seq<Item>, taken: Seq<Item>, handled: Seq<int>)
+    requires
+        is_prefix(taken, acc),                    // A1
+        stop_is_last(taken),                      // monitor: Stopped is absorbing
+        handled =~= ids_until_stop(taken),        // monitor: Handled(id) exactly once per taken envelope, before the next poll
+    ensures
+        // handled messages are accepted ones, in acceptance order, each at most once per acceptance; none accepted behind the marker
+        is_prefix(handled, ids_until_stop(acc)), /*L:L1.handled_is_ordered_prefix_of_accepted_before_stop*/
+        // if the loop took the stop marker, everything accepted before it was handled (and nothing else)
+        has_stop(taken) ==> handled =~= ids_until_stop(acc), /*L:L1.stop_marker_taken_implies_all_earlier_work_handled*/
+{
+    lemma_prefix_ids(taken, acc);
+}
